@@ -6,6 +6,7 @@ import (
 	"container/heap"
 	"errors"
 	"net"
+	"os"
 	"time"
 
 	simrt "github.com/insomniacslk/dhcp/zzsimrt"
@@ -147,6 +148,9 @@ type Conn struct {
 	// CloseErr is what Close returns the first time.
 	CloseErr error
 
+	// deadlines as package net documents them (bubble clock); zero: none
+	readDeadline, writeDeadline time.Time
+
 	Reads, Writes int
 	siteRead      int
 	siteReadWait  int
@@ -207,12 +211,25 @@ func (c *Conn) ReadFrom(b []byte) (int, net.Addr, error) {
 			}
 			return n, d.from, nil
 		}
+		if !c.readDeadline.IsZero() && !time.Now().Before(c.readDeadline) {
+			c.s.Ev("rx.err", -1, 0, c.Name+": read deadline", nil)
+			return 0, nil, &net.OpError{Op: "read", Net: "udp", Err: os.ErrDeadlineExceeded}
+		}
 		w := make(chan struct{})
 		c.waiters = append(c.waiters, w)
 		if c.OnIdle != nil {
 			c.OnIdle() // the reader has consumed everything queued so far
 		}
-		<-w
+		if c.readDeadline.IsZero() {
+			<-w
+		} else {
+			tm := time.NewTimer(time.Until(c.readDeadline))
+			select {
+			case <-w:
+			case <-tm.C:
+			}
+			tm.Stop()
+		}
 		simrt.Woke(c.siteReadWait)
 	}
 }
@@ -222,6 +239,9 @@ func (c *Conn) WriteTo(b []byte, to net.Addr) (int, error) {
 	if c.closed {
 		c.s.Ev("tx.err", -1, 0, c.Name+": closed", nil)
 		return 0, errClosed("write")
+	}
+	if !c.writeDeadline.IsZero() && !time.Now().Before(c.writeDeadline) {
+		return 0, &net.OpError{Op: "write", Net: "udp", Err: os.ErrDeadlineExceeded}
 	}
 	if c.WriteErr != nil {
 		if err := c.WriteErr(b, to); err != nil {
@@ -256,11 +276,29 @@ func (c *Conn) Pending() int { return len(c.inbox) }
 // ReaderWaiting reports whether a reader is blocked in ReadFrom.
 func (c *Conn) ReaderWaiting() bool { return len(c.waiters) > 0 }
 
-func (c *Conn) Closed() bool                       { return c.closed }
-func (c *Conn) LocalAddr() net.Addr                { return c.Local }
-func (c *Conn) SetDeadline(t time.Time) error      { return nil }
-func (c *Conn) SetReadDeadline(t time.Time) error  { return nil }
-func (c *Conn) SetWriteDeadline(t time.Time) error { return nil }
+func (c *Conn) Closed() bool        { return c.closed }
+func (c *Conn) LocalAddr() net.Addr { return c.Local }
+
+// Deadlines behave as package net documents them: a read deadline applies to pending
+// and future reads (a blocked reader is woken to look at the new value), a write
+// deadline to future writes. The library does not use them today; a change that
+// starts to must meet a connection that honours them.
+func (c *Conn) SetDeadline(t time.Time) error {
+	c.readDeadline, c.writeDeadline = t, t
+	c.wakeReaders()
+	return nil
+}
+
+func (c *Conn) SetReadDeadline(t time.Time) error {
+	c.readDeadline = t
+	c.wakeReaders()
+	return nil
+}
+
+func (c *Conn) SetWriteDeadline(t time.Time) error {
+	c.writeDeadline = t
+	return nil
+}
 
 var errInjectedRead = errors.New("simnet: injected read error")
 var errInjectedWrite = errors.New("simnet: injected write error")
